@@ -128,3 +128,8 @@ pub fn c01_order_store_queue() {
     kani::cover!(true, "end");
     std::mem::forget(store);
 }
+
+/// puts exactly `key` into a queue without going through `Queue::push`
+pub(crate) fn queue_set_single<N: Next>(q: &mut Queue<N>, key: Key) {
+    q.indices = Some(Indices { head: key, tail: key });
+}
